@@ -48,7 +48,7 @@ func (t *TempoController) Trace(w http.ResponseWriter, r *http.Request) {
 	if err != nil {
 		end = 0
 	}
-	bTraceId := make([]byte, 32)
+	bTraceId := make([]byte, hex.DecodedLen(len(traceId)))
 	_, err = hex.Decode(bTraceId, []byte(traceId))
 	if err != nil {
 		PromError(500, err.Error(), w)
